@@ -17,6 +17,12 @@ CHECKS = {
             "Random request histories over generated templates are compared, name for name, with an independent reference generator; duplicates, reserved names, wrong order, wrong padding/word limit/charsub, missing error and non-termination are all decided per step. Exploration only: held on the generated histories.",
             "Trusted: models/fnmodel.py (reading of the docstring grammar and the statement); the two namespace policies accepted where the statement is silent.",
             "DESIGN.md C15"),
+    "C17": ("hypothesis+fork-differential",
+            "exploration",
+            "differential property testing: generated sequences A1..Ak;B, B alone in a fresh fork vs B after A*, plus a class-attribute snapshot monitor",
+            "Generated document sequences (registers, classes, packages, math/lists left open, \\openout, ...) are processed in one interpreter and B's canonicalised tree (and HTML5 files in the 'rendered' stream) is compared with B processed alone in a fresh fork; a monitor diffs every class attribute of every plasTeX class against its import-time value after every document. Exploration: held on the generated sequences, except the listed known finding.",
+            "Trusted: fork of a process that imported plasTeX but processed nothing is a 'fresh interpreter'; id canonicalisation; '@' caches and Node._mixed_ book-keeping are not parsing state. Known finding: article class patches shared index/bibliography classes (known_findings.json).",
+            "DESIGN.md C17"),
 }
 
 PENDING_REASON = "check not built yet in this session (planned, see DESIGN.md section 7); nothing is claimed for it"
